@@ -137,7 +137,7 @@ def c04_inputs(rng, quick):
         out += [f"{D}e{e10}", f"{str(D)[:3]}.{str(D)[3:]}e{e10 + 14}"]
     # hardest cases per table row by continued fractions: decimals within ~1e-17 .. 1e-20 ulp of a midpoint
     seen_cf = set()
-    for D, e10, b, err in cf_hard_cases(range(-342, 292), keep=1 if quick else 5):
+    for D, e10, b, err in cf_hard_cases(range(-342, 309), keep=1 if quick else 5):
         if (D, e10) in seen_cf:
             continue
         seen_cf.add((D, e10))
@@ -184,6 +184,11 @@ def c07_inputs(rng, quick):
     for be in range(0, 2047, 13 if quick else 1):
         for m in [0, 1, (1 << 52) - 1, 1 << 51, rng.getrandbits(52)] + ([] if quick else [rng.getrandbits(52) for _ in range(2)]):
             bits.append((be << 52) | m)
+    # every binary exponent with random significands: an error in the upper bits of the low word of a table row moves the
+    # computed interval ends by a fraction of a unit, which a few per cent of all doubles served by that row expose
+    for be in range(1, 2047):
+        for _ in range(2 if quick else 12):
+            bits.append((be << 52) | rng.getrandbits(52))
     for k in range(-323, 309, 6 if quick else 1):          # decades (one table entry each): nearest doubles to c * 10^k
         for c in ("1", "3", "7"):
             try:
@@ -202,7 +207,7 @@ def c07_inputs(rng, quick):
         bits += [b, b + 1]
     # the two doubles adjacent to a midpoint that a 16..19-digit decimal hits within ~1e-17 ulp (continued fractions): the
     # decimal is barely inside or outside their rounding intervals, so the low word of the decade's table entry decides
-    for D, e10, b, err in cf_hard_cases(range(-342, 292), digit_ranges=((14, 15), (15, 16), (16, 17), (17, 18)) if not quick else ((15, 16), (16, 17), (17, 18)), keep=1 if quick else 10):
+    for D, e10, b, err in cf_hard_cases(range(-342, 309), digit_ranges=((14, 15), (15, 16), (16, 17), (17, 18)), keep=2 if quick else 10):
         bits += [b, b + 1]
     for e in range(-1074, 1024, 9 if quick else 1):          # powers of two and their neighbours (irregular boundary)
         b = d2b(2.0 ** e)
